@@ -223,3 +223,16 @@ def _match_value(got: Any, want: Any) -> bool:
     if isinstance(want, list):
         return got in want
     return got == want
+
+
+def pmap(func: Any, items: list[Any], *, procs: int | None = None, min_items: int = 120) -> list[Any]:
+    """Ordered map over independent, seed-determined scenarios in forked worker processes (each scenario builds its own event loop,
+    sockets and clock; nothing is shared).  Small batches run in-process."""
+    if len(items) < min_items or os.environ.get("VERIF_NO_FORK"):
+        return [func(x) for x in items]
+    import multiprocessing
+
+    ctx = multiprocessing.get_context("fork")
+    n = procs or min(12, os.cpu_count() or 4)
+    with ctx.Pool(n) as pool:
+        return pool.map(func, items, chunksize=max(1, len(items) // (n * 8)))
